@@ -807,6 +807,7 @@ func main() {
 		}
 		confirmed[v.Sig] = true
 		if !reproduces(dir, v.viol) {
+			os.RemoveAll(dir)
 			fw.Fatalf("violation %q on input %s (%s) did not reproduce in a fresh process: %s", v.Sig, v.Tag, v.Hex, v.What)
 		}
 	}
@@ -814,6 +815,7 @@ func main() {
 		run.Violation(v.Sig, v.What+" [input "+v.Tag+"]", map[string]any{"hex": v.Hex, "fs": v.FS, "tag": v.Tag, "valid": v.Valid, "req": v.Req, "argsets": v.Args, "ref": v.Ref})
 	}
 
+	os.RemoveAll(dir) // run.Finish exits the process: deferred clean-up would not run
 	out := map[string]int64{}
 	rej := int64(0)
 	rejClasses := int64(0)
@@ -1011,6 +1013,7 @@ func replayMain(file string) {
 				failed = true
 			}
 		})
+	os.RemoveAll(dir)
 	if failed {
 		os.Exit(1)
 	}
